@@ -1,1 +1,15 @@
 import Lmd.Props.C18
+#print axioms Lmd.C18.length_nodes
+#print axioms Lmd.C18.quotas_cover
+#print axioms Lmd.C18.assignment_partition_general
+#print axioms Lmd.C18.assignment_partition
+#print axioms Lmd.C18.assignment_count
+#print axioms Lmd.C18.assignment_unique
+#print axioms Lmd.C18.offline_gets_nothing
+#print axioms Lmd.C18.owner_online
+#print axioms Lmd.C18.evenness_quota
+#print axioms Lmd.C18.evenness
+#print axioms Lmd.C18.lengths_eq_quotas
+#print axioms Lmd.C18.evenness_remainder
+#print axioms Lmd.C18.takeover
+#print axioms Lmd.C18.deterministic_view
